@@ -255,7 +255,10 @@ func compareRed(s *world.Snap, p *pendRef, oracle string) []engine.Failure {
 		}
 		got[k] = r.Amt.BigInt()
 	}
-	for k, a := range want {
+	// sorted: which of the two causes is reported first must not depend on map order (a failure is replayed twice and must
+	// come back under the same label)
+	for _, k := range sortedKeys(want) {
+		a := want[k]
 		if got[k] == nil {
 			out = append(out, fail(oracle, "record-missing", "pending redelegation %s (%s) has no primary record", k, a))
 			break
